@@ -3,6 +3,7 @@ package roverif
 import (
 	"fmt"
 	"strconv"
+	"strings"
 
 	"github.com/samber/ro"
 )
@@ -34,7 +35,7 @@ func noHotNoAux(d *StageDef) bool { return !d.Hot }
 func init() {
 	Register(&Family{
 		Name:   "C01.chain",
-		Props:  []string{"C01"},
+		Props:  []string{"C01", "C07"},
 		Weight: 5,
 		Gen: func(g *Gen) *Scn {
 			sc := &Scn{Family: "C01.chain"}
@@ -73,6 +74,32 @@ func init() {
 			checkGrammar(e, rec)
 			if e.Sc.Sub == "bare" {
 				checkLate(e, srcs[0], []*Rec{rec}, true)
+				// a subscribe function that panics after it has terminated the stream: nobody can receive
+				// that failure as a notification, so it surfaces - once - through a hook (as a dropped Error
+				// notification or as an unhandled error), with its cause
+				script := e.Sc.Sources[0].Script
+				term, p := -1, -1
+				for i, st := range script {
+					if st.K != "N" && st.K != "P" && term < 0 {
+						term = i
+					}
+					if st.K == "P" && p < 0 {
+						p = i
+					}
+				}
+				if e.Sc.Sources[0].Mode == "sync" && term >= 0 && p > term && !e.K.Capped() {
+					n := 0
+					for _, d := range append(append([]string(nil), e.Dropped...), e.Unhandled...) {
+						if strings.Contains(d, ScriptError(script[p].V).Error()) {
+							n++
+						}
+					}
+					if n != 1 {
+						msg := fmt.Sprintf("the subscribe function emitted %s and then panicked with %v: that failure reached the hooks %d times (want exactly 1; dropped=%v unhandled=%v)", script[term].K, ScriptError(script[p].V), n, e.Dropped, e.Unhandled)
+						e.Violate("C07", "late-failure-unreported", msg)
+						e.Violate("C01", "late-not-dropped-once", msg)
+					}
+				}
 			}
 		},
 	})
